@@ -40,6 +40,7 @@ type vkFd struct {
 	rq     []byte
 	dgrams []vkDgram
 	eof    bool
+	fullHup bool // the peer closed both directions (unix socket close): EPOLLHUP together with EOF
 	rerr   syscall.Errno // pending read error (reset)
 	werr   syscall.Errno // sticky write error
 	// connect
@@ -541,6 +542,9 @@ func (f *vkFd) pending() uint32 {
 	if f.hup() && (!et || f.edgeIn) {
 		if f.eof {
 			ev |= syscall.EPOLLRDHUP & f.mask
+			if f.fullHup {
+				ev |= syscall.EPOLLHUP // reported whether asked for or not; data may still be queued
+			}
 		}
 		if f.rerr != 0 {
 			ev |= syscall.EPOLLERR | syscall.EPOLLHUP
@@ -622,6 +626,15 @@ func (f *vkFd) peerDatagram(b []byte, from syscall.Sockaddr) {
 
 func (f *vkFd) peerClose() {
 	f.eof = true
+	f.edgeIn = true
+}
+
+// peerCloseFull is a peer that closes its whole socket (as a unix socket peer
+// does): hang-up and end of stream are reported together, and whatever it sent
+// before is still there to be read.
+func (f *vkFd) peerCloseFull() {
+	f.eof = true
+	f.fullHup = true
 	f.edgeIn = true
 }
 
